@@ -157,3 +157,110 @@ pub fn quantize_spec(x: f64) -> i32 {
         if frac >= 0.5 { i + 1 } else if frac <= -0.5 { i - 1 } else { i }
     }
 }
+
+// ------------------------------------------------------------------------------------
+// C03: textbook schedules, dense and index-based, for exact integer min-sum.
+// Result: (success, word, iterations).
+// ------------------------------------------------------------------------------------
+
+fn syndrome_ok<const R: usize, const N: usize>(h: &[[bool; N]; R], w: &[u8; N]) -> bool {
+    let mut r = 0;
+    while r < R {
+        let mut p = 0u8;
+        let mut c = 0;
+        while c < N {
+            if h[r][c] { p ^= w[c]; }
+            c += 1;
+        }
+        if p != 0 { return false; }
+        r += 1;
+    }
+    true
+}
+
+fn hard<const N: usize>(l: &[i32; N]) -> [u8; N] {
+    let mut w = [0u8; N];
+    let mut c = 0;
+    while c < N { w[c] = if l[c] <= 0 { 1 } else { 0 }; c += 1; }
+    w
+}
+
+/// min-sum of the entries of row r other than column c
+fn minsum_others<const R: usize, const N: usize>(h: &[[bool; N]; R], m: &[[i32; N]; R], r: usize, c: usize) -> i32 {
+    let mut neg = false;
+    let mut mn = i32::MAX;
+    let mut k = 0;
+    while k < N {
+        if h[r][k] && k != c {
+            let v = m[r][k];
+            if v < 0 { neg = !neg; }
+            let a = iabs(v);
+            if a < mn { mn = a; }
+        }
+        k += 1;
+    }
+    if neg { -mn } else { mn }
+}
+
+/// Flooding: all check-to-variable messages from the previous variable-to-check messages,
+/// then all variable updates; syndrome test after every full iteration.
+pub fn ref_flooding<const R: usize, const N: usize>(h: &[[bool; N]; R], llr: &[i32; N], limit: usize) -> (bool, [u8; N], usize) {
+    let w0 = hard(llr);
+    if syndrome_ok(h, &w0) { return (true, w0, 0); }
+    let mut v2c = [[0i32; N]; R];
+    let mut r = 0;
+    while r < R { let mut c = 0; while c < N { if h[r][c] { v2c[r][c] = llr[c]; } c += 1; } r += 1; }
+    let mut out = *llr;
+    let mut it = 1;
+    while it <= limit {
+        let mut c2v = [[0i32; N]; R];
+        let mut r = 0;
+        while r < R { let mut c = 0; while c < N { if h[r][c] { c2v[r][c] = minsum_others(h, &v2c, r, c); } c += 1; } r += 1; }
+        let mut c = 0;
+        while c < N {
+            let mut total = llr[c];
+            let mut r = 0;
+            while r < R { if h[r][c] { total += c2v[r][c]; } r += 1; }
+            out[c] = total;
+            let mut r = 0;
+            while r < R { if h[r][c] { v2c[r][c] = total - c2v[r][c]; } r += 1; }
+            c += 1;
+        }
+        let w = hard(&out);
+        if syndrome_ok(h, &w) { return (true, w, it); }
+        it += 1;
+    }
+    (false, hard(&out), limit)
+}
+
+/// Horizontal layered: checks one by one in row order with immediate variable updates;
+/// check messages start at zero each frame; syndrome test after every full iteration.
+pub fn ref_layered<const R: usize, const N: usize>(h: &[[bool; N]; R], llr: &[i32; N], limit: usize) -> (bool, [u8; N], usize) {
+    let w0 = hard(llr);
+    if syndrome_ok(h, &w0) { return (true, w0, 0); }
+    let mut q = *llr;
+    let mut rcv = [[0i32; N]; R];
+    let mut it = 1;
+    while it <= limit {
+        let mut r = 0;
+        while r < R {
+            let mut x = [[0i32; N]; R];
+            let mut c = 0;
+            while c < N { if h[r][c] { x[r][c] = q[c] - rcv[r][c]; } c += 1; }
+            let mut c = 0;
+            while c < N {
+                if h[r][c] {
+                    let new = minsum_others(h, &x, r, c);
+                    rcv[r][c] = new;
+                    q[c] = x[r][c] + new;
+                }
+                c += 1;
+            }
+            r += 1;
+        }
+        let w = hard(&q);
+        if syndrome_ok(h, &w) { return (true, w, it); }
+        it += 1;
+    }
+    (false, hard(&q), limit)
+}
